@@ -18,12 +18,16 @@ CEX = None
 M = __name__
 
 
+class Hang(Exception):
+    """the parser keeps asking an exhausted source for more bytes: it would spin forever on a real one"""
+
+
 class ChunkedSource(io.RawIOBase):
     """Non-seekable raw source; the i-th read returns at most sizes[i] bytes (later reads: unlimited)."""
 
     def __init__(self, data: bytes, sizes):
         super().__init__()
-        self.data, self.sizes, self.pos, self.calls = data, sizes, 0, 0
+        self.data, self.sizes, self.pos, self.calls, self.eof_calls = data, sizes, 0, 0, 0
 
     def readable(self):
         return True
@@ -34,6 +38,10 @@ class ChunkedSource(io.RawIOBase):
     def readinto(self, b):
         want = len(b)
         remaining = len(self.data) - self.pos
+        if remaining == 0:
+            self.eof_calls += 1
+            if self.eof_calls > 200:
+                raise Hang
         n = min(want, remaining)
         if self.calls < len(self.sizes):
             n = min(n, self.sizes[self.calls])
